@@ -503,8 +503,8 @@ class Alias:
 
 # ------------------------------------------------------------------ the caller's input buffer --
 READ_ONLY = {"seek", "tell", "read", "getvalue", "readline", "readlines", "read1", "readinto", "seekable", "readable", "closed", "getbuffer",
-             "writable", "isatty", "peek", "__enter__", "__exit__"}
-WRITERS = {"write", "writelines", "truncate", "close", "detach", "__setitem__"}
+             "writable", "isatty", "peek", "__enter__"}
+WRITERS = {"write", "writelines", "truncate", "close", "detach", "__setitem__", "__exit__"}
 INPUT_PARAM = "file_like"
 
 
@@ -560,6 +560,13 @@ def aliases_of(fnode, names):
                 tgt, val = n.target.id, n.value
             elif isinstance(n, ast.NamedExpr):
                 tgt, val = n.target.id, n.value
+            elif isinstance(n, (ast.With, ast.AsyncWith)):
+                # `with buffer as f`: a stream's __enter__ returns the stream itself
+                for it in n.items:
+                    if isinstance(it.optional_vars, ast.Name) and isinstance(it.context_expr, ast.Name) and it.context_expr.id in names \
+                            and it.optional_vars.id not in names:
+                        names.add(it.optional_vars.id)
+                        grew = True
             if tgt is None or tgt in names:
                 continue
             vals = [val]
@@ -587,6 +594,16 @@ def input_buffer_sites(fnode, names):
             for t in (n.targets if isinstance(n, (ast.Assign, ast.Delete)) else [n.target]):
                 if isinstance(t, (ast.Attribute, ast.Subscript)) and isinstance(t.value, ast.Name) and t.value.id in names:
                     out.append((n.lineno, f"store into {t.value.id}", True))
+        if isinstance(n, (ast.With, ast.AsyncWith)):
+            # the buffer used as a context manager (directly or through contextlib.closing): leaving the block closes it, the caller
+            # can no longer read what it passed in
+            for it in n.items:
+                ce = it.context_expr
+                if isinstance(ce, ast.Name) and ce.id in names:
+                    out.append((n.lineno, f"with {ce.id}: closes the caller's buffer on exit", True))
+                elif isinstance(ce, ast.Call) and dotted(ce.func).split(".")[-1] == "closing" and ce.args and isinstance(ce.args[0], ast.Name) \
+                        and ce.args[0].id in names:
+                    out.append((n.lineno, f"with closing({ce.args[0].id}): closes the caller's buffer on exit", True))
         if isinstance(n, ast.Call) and dotted(n.func).split(".")[-1] in ("ZipFile", "TarFile", "open") and n.args \
                 and isinstance(n.args[0], ast.Name) and n.args[0].id in names:
             mode = n.args[1] if len(n.args) > 1 else next((k.value for k in n.keywords if k.arg == "mode"), None)
